@@ -567,8 +567,8 @@ def judge_spw(ctx, case, rep_base, rep_op):
         kw['bandwidth'] = case['bandwidth']
     w0 = SpectralWindow(case['centre'], case['width'], case['n'], 'c856M4k', case['sb'], 'L', **kw)
     base = parse_spw(rep_base)
-    exact = case['dyadic']
-    scale = max(abs(float(base['bandwidth'])), abs(case['centre']) * 1e-3, 1.0) if not exact else 1.0
+    exact = case['dyadic'] and not (case['op'][0] == 'rech' and case['op'][1] not in (1, 2, 4, 8, case['n']))
+    scale = max(abs(float(base['bandwidth'])), abs(case['centre']) * 1e-3, 1.0)
     ctx.tag('spw-' + case['op'][0], 'spw-odd' if case['n'] % 2 else 'spw-even', 'spw-lsb' if case['sb'] < 0 else 'spw-usb',
             'spw-exact' if exact else 'spw-tol')
 
